@@ -653,7 +653,50 @@ func errorHandled(call *ssa.Call) string {
 		return "the error result is never tested nor returned"
 	}
 	for _, t := range tests {
-		r := reach(nil, []*ssa.BasicBlock{t.NonNil}, nil, nil)
+		// On the non-nil edge the error may be parked in a result variable (a phi) that is tested again further down
+		// (`r = err; break` ... `if r != nil { return r }`): on these paths the phi IS the non-nil error, so the nil
+		// edge of that second test is infeasible and is cut.
+		r0 := reach(nil, []*ssa.BasicBlock{t.NonNil}, nil, nil)
+		cutPhi := func(e edge) bool {
+			iff, ok := e.from.Instrs[len(e.from.Instrs)-1].(*ssa.If)
+			if !ok {
+				return false
+			}
+			bo, ok := iff.Cond.(*ssa.BinOp)
+			if !ok || (bo.Op != token.EQL && bo.Op != token.NEQ) {
+				return false
+			}
+			v := bo.X
+			if isNilConst(v) {
+				v = bo.Y
+			} else if !isNilConst(bo.Y) {
+				return false
+			}
+			ph, ok := v.(*ssa.Phi)
+			if !ok {
+				return false
+			}
+			some := false
+			for i, p := range ph.Block().Preds {
+				live := p == t.NonNil || r0[p.Instrs[len(p.Instrs)-1]]
+				if !live {
+					continue
+				}
+				if ph.Edges[i] != ev {
+					return false
+				}
+				some = true
+			}
+			if !some {
+				return false
+			}
+			nilSucc := 0
+			if bo.Op == token.NEQ {
+				nilSucc = 1
+			}
+			return e.succ == nilSucc
+		}
+		r := reach(nil, []*ssa.BasicBlock{t.NonNil}, nil, cutPhi)
 		sawExit := false
 		for in := range r {
 			switch x := in.(type) {
